@@ -110,12 +110,12 @@ class Case:
 
         def crit(o, y):
             l = crit_real(o, y)
-            log.append(("loss", l, all_training(model), tm.gradient__))
+            log.append(("loss", l, all_training(model), common.grad_enabled()))
             return l
         orig_step, orig_zero = opt.step, opt.zero_grad
 
         def step():
-            log.append(("step", all_training(model), tm.gradient__, [snapshot(p.data) for p in params]))
+            log.append(("step", all_training(model), common.grad_enabled(), [snapshot(p.data) for p in params]))
             return orig_step()
 
         def zero():
@@ -152,8 +152,8 @@ class Case:
             # every update must still be computed from its own batch only
             for k, p_ in enumerate(params):
                 set_grad(p_, snapshot(env.arr("stale%d" % k, p_.shape)))
-        tm.gradient__ = True
-        before_flags = (tm.gradient__, tm.retain_grads__)
+        common.reset_modes()
+        before_flags = (common.grad_enabled(),)
         cb_train = cb_val = None
         if sp.get("callbacks"):
             # per-epoch callbacks that leave the model in the *wrong* mode (e.g. a prediction snapshot through
@@ -165,7 +165,7 @@ class Case:
                 m.train()
         history = trainer.fit(train_loader, sp["epochs"], validation_loader=val_loader,
                               on_train_epoch=cb_train, on_validation_epoch=cb_val)
-        after_flags = (tm.gradient__, tm.retain_grads__)
+        after_flags = (common.grad_enabled(),)
         out.fact("fit leaves the global gradient mode as it found it", before_flags == after_flags, "%s -> %s" % (before_flags, after_flags))
 
         # ---- call log: exactly epochs x len(train_loader) steps, each preceded by a zero_grad since the previous step
@@ -273,26 +273,27 @@ class Case:
         # ---- Trainer.test: eval mode, no gradient tracking, mode restored, nothing changed
         if sp.get("test"):
             snap = [snapshot(p.data) for p in params] + [snapshot(b.running_mean.data) for b in bns] + [snapshot(b.running_var.data) for b in bns]
+            import contextlib
+            import io
             for entry in ((True, False) if sp["grad_on_entry"] else (False,)):
-                tm.gradient__ = entry
                 seen = []
                 orig_fw = model.forward
 
                 def fw(x, _o=orig_fw):
-                    seen.append((all_training(model), tm.gradient__))
+                    seen.append((all_training(model), common.grad_enabled()))
                     return _o(x)
                 model.forward = fw
-                try:
-                    import io
-                    import contextlib
-                    with contextlib.redirect_stdout(io.StringIO()):
-                        y_pred, y_true = trainer.test(val_loader if val_loader is not None else train_loader)
-                finally:
-                    model.forward = orig_fw
+                # entry mode off = the caller's own no_grad block around test()
+                with (contextlib.nullcontext() if entry else synapgrad.no_grad()):
+                    try:
+                        with contextlib.redirect_stdout(io.StringIO()):
+                            y_pred, y_true = trainer.test(val_loader if val_loader is not None else train_loader)
+                    finally:
+                        model.forward = orig_fw
+                    after = common.grad_enabled()
                 out.fact("test runs in eval mode with gradient tracking disabled", bool(seen) and all((not any(a)) and (not g) for a, g in seen))
-                out.fact("test leaves the global gradient mode as it found it (entry mode %s)" % entry, tm.gradient__ == entry,
-                         "mode after test: %s" % tm.gradient__)
-            tm.gradient__ = True
+                out.fact("test leaves the global gradient mode as it found it (entry mode %s)" % entry, after == entry,
+                         "mode after test: %s" % after)
             now = [p.data for p in params] + [b.running_mean.data for b in bns] + [b.running_var.data for b in bns]
             for k, (a, b) in enumerate(zip(now, snap)):
                 out.pair("test changed nothing (%d)" % k, snapshot(a), b)
